@@ -92,3 +92,29 @@ func TestD14SampleTables(t *testing.T) {
 		}
 	}
 }
+
+// D27: the tick length was truncated to a nanosecond (time.Second / timescale) and multiplied by
+// the tick count, so for a timescale that does not divide a second the media time drifted: a
+// payload that starts after one hour at 90 kHz was placed at 3599.964 s.
+func TestD27MediaTime(t *testing.T) {
+	p := gpsPayload(2)
+	n := uint32(len(p))
+	payload := append(append([]byte{}, p...), p...)
+	// two samples: the first lasts exactly one hour (324,000,000 ticks at 90 kHz), the second one second
+	file, _, err := mp4synth.Build(payload, mp4synth.Tables{Stsc: [][2]uint32{{1, 1}}, NSamples: 2, Sizes: []uint32{n, n},
+		Stts: [][2]uint32{{1, 324000000}, {1, 90000}}, Offsets: []uint64{0, uint64(n)}, Timescale: 90000})
+	if err != nil {
+		t.Fatal(err)
+	}
+	els, derr, panicked := decodeMP4(t, file)
+	if panicked || derr != nil {
+		t.Fatalf("panicked=%v err=%v", panicked, derr)
+	}
+	got := gpsOffsets(els)
+	if len(got) != 2 || len(got[1]) != 2 {
+		t.Fatalf("payloads: %v", got)
+	}
+	if got[1][0] != time.Hour || got[1][1] != time.Hour+500*time.Millisecond {
+		t.Fatalf("second payload starts one hour in: offsets %v, want [1h0m0s 1h0m0.5s]", got[1])
+	}
+}
